@@ -11,6 +11,8 @@ import (
 	sdkmath "cosmossdk.io/math"
 	storetypes "cosmossdk.io/store/types"
 	sdk "github.com/cosmos/cosmos-sdk/types"
+	banktypes "github.com/cosmos/cosmos-sdk/x/bank/types"
+	minttypes "github.com/cosmos/cosmos-sdk/x/mint/types"
 	"github.com/ethereum/go-ethereum/accounts/abi"
 	"github.com/ethereum/go-ethereum/common"
 
@@ -301,6 +303,7 @@ func (r *c08Run) run() {
 	r.targetedProbes()
 	r.softFailProbe()
 	r.aliasClashProbe()
+	r.caseVariantProbe()
 	if r.broken {
 		r.broken = false
 	}
@@ -719,6 +722,60 @@ func (r *c08Run) aliasClashProbe() {
 		what := fmt.Sprintf("register ERC-20 with symbol %q while %q is an alias of %s -> ok=%v %s", sym, alias, e.USDT.Base, res.OK(), short(res.ErrString()))
 		r.logf(what)
 		r.checkIndexesOn(b, what)
+	}
+}
+
+// caseVariantProbe: governance registers a module-owned coin whose denomination differs from the
+// native coin's only by letter case; it is an ordinary module-owned pair (escrow in the module, not
+// in the wrapper contract) and converts both ways like one.
+func (r *c08Run) caseVariantProbe() {
+	e, c := r.e, r.e.C
+	base := []string{"fx", "Fx", "fX"}[int(c.Cfg.Seed%3)]
+	if base == fxtypes.DefaultDenom {
+		return
+	}
+	ctx := c.Branch()
+	md := banktypes.Metadata{
+		Description: "case variant of the native denomination",
+		DenomUnits:  []*banktypes.DenomUnit{{Denom: base, Exponent: 0}, {Denom: "LFX", Exponent: 18}},
+		Base:        base, Display: "LFX", Name: "Little FX", Symbol: "LFX",
+	}
+	if res := c.MsgOn(ctx, &erc20types.MsgRegisterCoin{Authority: chain.GovAuthority(), Metadata: md}); !res.OK() {
+		r.logf("case-variant coin %q not registrable: %s", base, res.ErrString())
+		r.res.Count("case_variant_coin_refused", 1)
+		return
+	}
+	pair, ok := c.App.Erc20Keeper.GetTokenPair(ctx, base)
+	if !ok {
+		return
+	}
+	coins := sdk.NewCoins(sdk.NewCoin(base, sdkmath.NewInt(1_000_000)))
+	if err := c.App.BankKeeper.MintCoins(ctx, minttypes.ModuleName, coins); err != nil {
+		return
+	}
+	if err := c.App.BankKeeper.SendCoinsFromModuleToAccount(ctx, minttypes.ModuleName, e.Caller.Acc(), coins); err != nil {
+		return
+	}
+	r.res.Count("case_variant_coin_probes", 1)
+	for _, st := range []struct {
+		toERC20 bool
+		amount  int64
+	}{{true, 600_000}, {false, 250_000}, {true, 400_000}, {false, 750_000}} {
+		var res chain.Result
+		if st.toERC20 {
+			res = c.MsgOn(ctx, &erc20types.MsgConvertCoin{Coin: sdk.NewCoin(base, sdkmath.NewInt(st.amount)), Receiver: e.Caller.Hex().Hex(), Sender: e.Caller.Bech32()})
+		} else {
+			res = c.MsgOn(ctx, &erc20types.MsgConvertERC20{ContractAddress: pair.Erc20Address, Amount: sdkmath.NewInt(st.amount), Receiver: e.Caller.Bech32(), Sender: e.Caller.Hex().Hex()})
+		}
+		what := fmt.Sprintf("conversion (to ERC-20: %v) of %d of module-owned coin %q -> ok=%v %s", st.toERC20, st.amount, base, res.OK(), short(res.ErrString()))
+		r.logf(what)
+		if !res.OK() {
+			r.res.Violate("C08/case-variant-coin/conversion-refused", "%s", what)
+		}
+		r.checkBooksOn(ctx, what)
+	}
+	if got := c.Balance(ctx, e.Caller.Acc(), base); !got.Equal(sdkmath.NewInt(1_000_000)) {
+		r.res.Violate("C08/case-variant-coin/round-trip", "after converting 1000000 %s to the ERC-20 and all of it back the holder owns %s", base, got)
 	}
 }
 
